@@ -17,9 +17,19 @@
   (branch decisions, loop-condition outcomes, indices, slice bounds, allocation sizes, shift counts,
   callees, arguments of leaking external calls) provided the declassified verdicts coincide.
 
-  NOT proved, because FALSE on the current sources (see `reject_*`, `witness_*`, `failing_*`):
-  SM2ScalarElement.SetBytes (early-exit comparison), GetAffineX_Unsafe / Bytes_Unsafe (big.Int.ModInverse
-  of the secret-dependent Z) and therefore SignHashed, GenerateKey, DerivePublic.
+  Entry points: `ct_SignHashed`, `ct_GenerateKey`, `ct_DerivePublic` — every function reachable from
+  signing, key generation and key derivation along which secret data flows passes (the math/big
+  arithmetic on k and d inside SignHashed is outside the enumerated operations: those calls are the
+  non-leaking `obs` nodes of the program: observations, not violations).
+
+  Still rejected (`reject_*`, `witness_*`): GetAffineX_Unsafe / Bytes_Unsafe (big.Int.ModInverse of Z).
+  They are reachable only from VerifyHashed, on a point computed from public data (signature and
+  public key): outside C08.  `failing_prog` / `callers_of_unsafe`: nothing else fails, nothing that
+  passes calls them.
+
+  Former violations, repaired in the sources (documentation; see SMGo/Proofs/CTIRCheckE.lean):
+  SM2ScalarElement.SetBytes early-exit comparison (9cead3d); SignHashed / GenerateKey / DerivePublic through
+  GetAffineX_Unsafe / Bytes_Unsafe (233fd1f); ConstantTimeCmp's branching three-way result (9a85a34).
 -/
 import SMGo.Model.CTIR
 import SMGo.Gen.CTIRProg
@@ -29,6 +39,7 @@ import SMGo.Proofs.CTIRCheckB
 import SMGo.Proofs.CTIRCheckC
 import SMGo.Proofs.CTIRCheckD
 import SMGo.Proofs.CTIRCheckE
+import SMGo.Proofs.CTIRCheckF
 namespace SMGo.Props.C08
 open SMGo.Model.CTIR SMGo.Gen.CTIRProg SMGo.Proofs.CTIRCheck
 
@@ -108,6 +119,7 @@ theorem ct_sm2ScalarFermatInvert_FiatAC : check (slice prog f_fiat_sm2ScalarFerm
 theorem ct_Bytes_p : check (slice prog f_fiat_SM2Element_Bytes) sigs f_fiat_SM2Element_Bytes = true := SMGo.Proofs.CTIRCheck.ct_Bytes_p
 theorem ct_bytes_p : check (slice prog f_fiat_SM2Element_bytes) sigs f_fiat_SM2Element_bytes = true := SMGo.Proofs.CTIRCheck.ct_bytes_p
 theorem ct_SetBytes_p : check (slice prog f_fiat_SM2Element_SetBytes) sigs f_fiat_SM2Element_SetBytes = true := SMGo.Proofs.CTIRCheck.ct_SetBytes_p
+theorem ct_SetBytes_n : check (slice prog f_fiat_SM2ScalarElement_SetBytes) sigs f_fiat_SM2ScalarElement_SetBytes = true := SMGo.Proofs.CTIRCheck.ct_SetBytes_n
 theorem ct_Equal_p : check (slice prog f_fiat_SM2Element_Equal) sigs f_fiat_SM2Element_Equal = true := SMGo.Proofs.CTIRCheck.ct_Equal_p
 theorem ct_IsZero_p : check (slice prog f_fiat_SM2Element_IsZero) sigs f_fiat_SM2Element_IsZero = true := SMGo.Proofs.CTIRCheck.ct_IsZero_p
 theorem ct_ToBigInt_p : check (slice prog f_fiat_SM2Element_ToBigInt) sigs f_fiat_SM2Element_ToBigInt = true := SMGo.Proofs.CTIRCheck.ct_ToBigInt_p
@@ -143,6 +155,10 @@ theorem ct_ScalarMult : check (slice prog f_internal_ScalarMult) sigs f_internal
 theorem ct_GetAffineX : check (slice prog f_internal_SM2Point_GetAffineX) sigs f_internal_SM2Point_GetAffineX = true := SMGo.Proofs.CTIRCheck.ct_GetAffineX
 theorem ct_PointBytes : check (slice prog f_internal_SM2Point_Bytes) sigs f_internal_SM2Point_Bytes = true := SMGo.Proofs.CTIRCheck.ct_PointBytes
 theorem ct_bytes_safe : check (slice prog f_internal_SM2Point_bytes_safe_true) sigs f_internal_SM2Point_bytes_safe_true = true := SMGo.Proofs.CTIRCheck.ct_bytes_safe
+theorem ct_DerivePublic : check (slice prog f_sm2_DerivePublic) sigs f_sm2_DerivePublic = true := SMGo.Proofs.CTIRCheck.ct_DerivePublic
+theorem ct_GenerateKey : check (slice prog f_sm2_GenerateKey) sigs f_sm2_GenerateKey = true := SMGo.Proofs.CTIRCheck.ct_GenerateKey
+theorem ct_SignHashed : check (slice prog f_sm2_SignHashed) sigs f_sm2_SignHashed = true := SMGo.Proofs.CTIRCheck.ct_SignHashed
+theorem ct_ensure32Bytes : check (slice prog f_sm2_ensure32Bytes) sigs f_sm2_ensure32Bytes = true := SMGo.Proofs.CTIRCheck.ct_ensure32Bytes
 
 /-! the Fiat-Crypto primitives are straight-line code with constant indices: no event except `call` -/
 
@@ -200,7 +216,8 @@ theorem Invert_n_trace (X1 X2 : Oracle) (hX : OracleRel sigs X1 X2) (z1 z2 x1 x2
   (sound f_fiat_SM2ScalarElement_Invert ct_Invert_n _ rfl X1 X2 hX [z1, x1] [z2, x2] ⟨hz, hx, trivial⟩ f1 f2 c1 c2 t1 t2 h1 h2 hd).1
 
 /-- comparison of secret byte strings: the length argument is public, the strings are secret; the
-    only thing that may differ is the verdict (declassification sites 0 and 1) -/
+    comparison declassifies nothing (its callers' two-way tests are the verdict sites), so the trace
+    is the same for all contents -/
 theorem ConstantTimeCmp_trace (X1 X2 : Oracle) (hX : OracleRel sigs X1 X2) (a1 a2 b1 b2 l : Val)
     (ha : a1.erase = a2.erase) (hb : b1.erase = b2.erase)
     (f1 f2 : Nat) (c1 c2 : Ctl) (t1 t2 : Trace)
@@ -209,13 +226,39 @@ theorem ConstantTimeCmp_trace (X1 X2 : Oracle) (hX : OracleRel sigs X1 X2) (a1 a
     (hd : declassOf t1 = declassOf t2) : t1 = t2 :=
   (sound f_utils_ConstantTimeCmp ct_ConstantTimeCmp _ rfl X1 X2 hX [a1, b1, l] [a2, b2, l] ⟨ha, hb, rfl, trivial⟩ f1 f2 c1 c2 t1 t2 h1 h2 hd).1
 
-/-! ## Declassification: every use is listed (site numbers: `siteInfo` of the generated file) -/
+/-- signing: the reader handle is public, the private key and the digest may be anything of the same
+    length; the nonce arrives through the external world (`io.ReadFull`, result labelled secret: the
+    two worlds X1, X2 may deliver different nonces).  Equal verdicts (key accepted, same retry
+    decisions) ⇒ equal traces. -/
+theorem SignHashed_trace (X1 X2 : Oracle) (hX : OracleRel sigs X1 X2) (rand priv1 priv2 e1 e2 : Val)
+    (hp : priv1.erase = priv2.erase) (he : e1.erase = e2.erase)
+    (f1 f2 : Nat) (c1 c2 : Ctl) (t1 t2 : Trace)
+    (h1 : run (slice prog f_sm2_SignHashed) globals X1 f1 f_sm2_SignHashed [rand, priv1, e1] = some (c1, t1))
+    (h2 : run (slice prog f_sm2_SignHashed) globals X2 f2 f_sm2_SignHashed [rand, priv2, e2] = some (c2, t2))
+    (hd : declassOf t1 = declassOf t2) : t1 = t2 :=
+  (sound f_sm2_SignHashed ct_SignHashed _ rfl X1 X2 hX [rand, priv1, e1] [rand, priv2, e2] ⟨rfl, hp, he, trivial⟩ f1 f2 c1 c2 t1 t2 h1 h2 hd).1
 
-theorem sites_ConstantTimeCmp : sitesOf prog f_utils_ConstantTimeCmp = [0, 1] := by decide +kernel
-theorem sites_TestPrivateKey : sitesOf prog f_sm2_TestPrivateKey = [2, 3, 0, 1] := by decide +kernel
-theorem sites_SetBytes_p : sitesOf prog f_fiat_SM2Element_SetBytes = [4, 0, 1] := by decide +kernel
-theorem sites_GetAffineX : sitesOf prog f_internal_SM2Point_GetAffineX = [6] := by decide +kernel
-theorem sites_PointBytes : sitesOf prog f_internal_SM2Point_Bytes = [5] := by decide +kernel
+/-- key derivation: any two private keys of the same length -/
+theorem DerivePublic_trace (X1 X2 : Oracle) (hX : OracleRel sigs X1 X2) (d1 d2 : Val) (hd' : d1.erase = d2.erase)
+    (f1 f2 : Nat) (c1 c2 : Ctl) (t1 t2 : Trace)
+    (h1 : run (slice prog f_sm2_DerivePublic) globals X1 f1 f_sm2_DerivePublic [d1] = some (c1, t1))
+    (h2 : run (slice prog f_sm2_DerivePublic) globals X2 f2 f_sm2_DerivePublic [d2] = some (c2, t2))
+    (hd : declassOf t1 = declassOf t2) : t1 = t2 :=
+  (sound f_sm2_DerivePublic ct_DerivePublic _ rfl X1 X2 hX [d1] [d2] ⟨hd', trivial⟩ f1 f2 c1 c2 t1 t2 h1 h2 hd).1
+
+/-! ## Declassification: every use is listed (site numbers: `siteInfo` of the generated file)
+
+  0, 1: TestPrivateKey `acc == 0`, `cmp == -1`;  2, 3: SetBytes (mod p, mod n) `ConstantTimeCmp(…) > 0`;
+  4, 5, 6: `p.z.IsZero() == 1` in SM2Point.bytes, GetAffineX, GetAffineX_Unsafe;  7: GenerateKey
+  `TestPrivateKey(priv) == 0`;  8: SignHashed `test := TestPrivateKey(priv)`;  9–13: the retry decisions of
+  the signing loop (`k >= n`, `k = 0`, `r = 0`, `r + k = n`, `s = 0`). -/
+
+theorem sites_ConstantTimeCmp : sitesOf prog f_utils_ConstantTimeCmp = [] := by decide +kernel
+theorem sites_TestPrivateKey : sitesOf prog f_sm2_TestPrivateKey = [0, 1] := by decide +kernel
+theorem sites_SetBytes_p : sitesOf prog f_fiat_SM2Element_SetBytes = [2] := by decide +kernel
+theorem sites_SetBytes_n : sitesOf prog f_fiat_SM2ScalarElement_SetBytes = [3] := by decide +kernel
+theorem sites_GetAffineX : sitesOf prog f_internal_SM2Point_GetAffineX = [5] := by decide +kernel
+theorem sites_PointBytes : sitesOf prog f_internal_SM2Point_Bytes = [4] := by decide +kernel
 theorem sites_ScalarBaseMult : sitesOf prog f_internal_ScalarBaseMult = [] := by decide +kernel
 theorem sites_ScalarMult : sitesOf prog f_internal_ScalarMult = [] := by decide +kernel
 theorem sites_Invert_p : sitesOf prog f_fiat_SM2Element_Invert = [] := by decide +kernel
@@ -223,38 +266,32 @@ theorem sites_Invert_n : sitesOf prog f_fiat_SM2ScalarElement_Invert = [] := by 
 theorem sites_Add : sitesOf prog f_internal_SM2Point_Add = [] := by decide +kernel
 theorem sites_Double : sitesOf prog f_internal_SM2Point_Double = [] := by decide +kernel
 theorem sites_MultiSelect : sitesOf prog f_fiat_SM2Element_MultiSelect = [] := by decide +kernel
+theorem sites_DerivePublic : sitesOf prog f_sm2_DerivePublic = [4] := by decide +kernel
+theorem sites_GenerateKey : sitesOf prog f_sm2_GenerateKey = [7, 0, 1, 4] := by decide +kernel
+theorem sites_SignHashed : sitesOf prog f_sm2_SignHashed = [8, 9, 10, 11, 12, 13, 0, 1, 5, 3] := by decide +kernel
 
-/-! ## What is rejected on the current sources (the positive theorems are the targets after repair) -/
+/-! ## What is still rejected: the `_Unsafe` conversions (used by VerifyHashed on public data only) -/
 
-theorem reject_SetBytes_n : check (slice prog f_fiat_SM2ScalarElement_SetBytes) sigs f_fiat_SM2ScalarElement_SetBytes = false :=
-  SMGo.Proofs.CTIRCheck.reject_SetBytes_n
 theorem reject_GetAffineX_Unsafe : check (slice prog f_internal_SM2Point_GetAffineX_Unsafe) sigs f_internal_SM2Point_GetAffineX_Unsafe = false :=
   SMGo.Proofs.CTIRCheck.reject_GetAffineX_Unsafe
 theorem reject_Bytes_Unsafe : check (slice prog f_internal_SM2Point_Bytes_Unsafe) sigs f_internal_SM2Point_Bytes_Unsafe = false :=
   SMGo.Proofs.CTIRCheck.reject_Bytes_Unsafe
-theorem reject_SignHashed : check (slice prog f_sm2_SignHashed) sigs f_sm2_SignHashed = false :=
-  SMGo.Proofs.CTIRCheck.reject_SignHashed
-theorem reject_GenerateKey : check (slice prog f_sm2_GenerateKey) sigs f_sm2_GenerateKey = false :=
-  SMGo.Proofs.CTIRCheck.reject_GenerateKey
-theorem reject_DerivePublic : check (slice prog f_sm2_DerivePublic) sigs f_sm2_DerivePublic = false :=
-  SMGo.Proofs.CTIRCheck.reject_DerivePublic
 
-/-- the entry points are rejected only because of those callees: every other function they reach
-    (TestPrivateKey, ConstantTimeCmp, ScalarBaseMult, the scalar inversion, …) passes -/
-theorem failing_SignHashed : failing (slice prog f_sm2_SignHashed) sigs =
-    [f_fiat_SM2ScalarElement_SetBytes, f_internal_SM2Point_GetAffineX_Unsafe] := SMGo.Proofs.CTIRCheck.failing_SignHashed
-theorem failing_GenerateKey : failing (slice prog f_sm2_GenerateKey) sigs = [f_internal_SM2Point_bytes_safe_false] :=
-  SMGo.Proofs.CTIRCheck.failing_GenerateKey
-theorem failing_DerivePublic : failing (slice prog f_sm2_DerivePublic) sigs = [f_internal_SM2Point_bytes_safe_false] :=
-  SMGo.Proofs.CTIRCheck.failing_DerivePublic
+/-- in the whole generated program exactly the `_Unsafe` conversions fail (`bytes` is the unspecialised
+    body with both variants) … -/
+theorem failing_prog : failing prog sigs =
+    [f_internal_SM2Point_GetAffineX_Unsafe, f_internal_SM2Point_bytes, f_internal_SM2Point_bytes_safe_false] :=
+  SMGo.Proofs.CTIRCheck.failing_prog
+/-- … and the only translated function that calls one of them is `Bytes_Unsafe` itself: no path from
+    SignHashed, GenerateKey or DerivePublic reaches them -/
+theorem callers_of_unsafe :
+    (List.range prog.length).filter (fun g => match prog[g]? with
+      | some fn => (calleesS fn.body).any (fun c => c == f_internal_SM2Point_GetAffineX_Unsafe ||
+          c == f_internal_SM2Point_Bytes_Unsafe || c == f_internal_SM2Point_bytes_safe_false || c == f_internal_SM2Point_bytes)
+      | none => false) = [f_internal_SM2Point_Bytes_Unsafe] := SMGo.Proofs.CTIRCheck.callers_of_unsafe
 
-/-- two secrets of the same length, the same (empty) list of verdicts, different traces -/
-theorem witness_SetBytes_n : ∃ c1 t1 c2 t2,
-    run (slice prog f_fiat_SM2ScalarElement_SetBytes) globals bigX 100000 f_fiat_SM2ScalarElement_SetBytes [scalarZero, secretA] = some (c1, t1) ∧
-    run (slice prog f_fiat_SM2ScalarElement_SetBytes) globals bigX 100000 f_fiat_SM2ScalarElement_SetBytes [scalarZero, secretB] = some (c2, t2) ∧
-    declassOf t1 = declassOf t2 ∧ t1 ≠ t2 :=
-  tracesDiffer_spec SMGo.Proofs.CTIRCheck.witness_SetBytes_n
-
+/-- two points of the same shape, the same verdict (not at infinity), different traces: the leaked
+    argument of `big.Int.ModInverse` is Z -/
 theorem witness_GetAffineX_Unsafe : ∃ c1 t1 c2 t2,
     run (slice prog f_internal_SM2Point_GetAffineX_Unsafe) globals bigX 100000 f_internal_SM2Point_GetAffineX_Unsafe [pointA] = some (c1, t1) ∧
     run (slice prog f_internal_SM2Point_GetAffineX_Unsafe) globals bigX 100000 f_internal_SM2Point_GetAffineX_Unsafe [pointB] = some (c2, t2) ∧
@@ -266,15 +303,6 @@ theorem witness_Bytes_Unsafe : ∃ c1 t1 c2 t2,
     run (slice prog f_internal_SM2Point_Bytes_Unsafe) globals bigX 100000 f_internal_SM2Point_Bytes_Unsafe [pointB] = some (c2, t2) ∧
     declassOf t1 = declassOf t2 ∧ t1 ≠ t2 :=
   tracesDiffer_spec SMGo.Proofs.CTIRCheck.witness_Bytes_Unsafe
-
-/- Targets once the sources are repaired (SM2ScalarElement.SetBytes through utils.ConstantTimeCmp;
-   SignHashed through GetAffineX; GenerateKey / DerivePublic through Bytes):
-
-theorem ct_SetBytes_n : check (slice prog f_fiat_SM2ScalarElement_SetBytes) sigs f_fiat_SM2ScalarElement_SetBytes = true := by decide +kernel
-theorem ct_SignHashed : check (slice prog f_sm2_SignHashed) sigs f_sm2_SignHashed = true := by decide +kernel
-theorem ct_GenerateKey : check (slice prog f_sm2_GenerateKey) sigs f_sm2_GenerateKey = true := by decide +kernel
-theorem ct_DerivePublic : check (slice prog f_sm2_DerivePublic) sigs f_sm2_DerivePublic = true := by decide +kernel
--/
 
 /-! ## Non-vacuity: the checker does reject a branch on a secret -/
 
@@ -312,8 +340,12 @@ example : check [{ nparams := 1, nvars := 2, body := .seq (.declass 1 7 (.var 0)
 #print axioms ct_ScalarMult
 #print axioms ct_SetBytes_p
 #print axioms ScalarBaseMult_trace
-#print axioms reject_SignHashed
-#print axioms witness_SetBytes_n
+#print axioms ct_SetBytes_n
+#print axioms ct_SignHashed
+#print axioms ct_GenerateKey
+#print axioms ct_DerivePublic
+#print axioms SignHashed_trace
+#print axioms reject_GetAffineX_Unsafe
 #print axioms witness_GetAffineX_Unsafe
 
 end SMGo.Props.C08
